@@ -749,5 +749,11 @@ def search(rng, ctx):
 
 
 THEOREMS = [
-    "see Props/C06.v",
+    "C06_value: BuiltValue scalar_ok key_ok v -> value_depth v < LIMIT -> top_plain v -> parse_value_raw (display_value (render_value float_text v)) = POk v' /\\ abs_value v' = abs_value v  (arrays / inline tables nested to any depth below the recursion limit; leaves: UTF-8 strings, i64, nan/inf/decimals below the overflow threshold, in-range date-times)",
+    "C06_key: utf8 k -> parse_key (key_display_repr (key_new k)) = POk (_, k)",
+    "C06_document: BuiltTbl scalar_ok key_ok t -> tbl_hdepth t < LIMIT -> tbl_vdepth t < LIMIT -> parse_document (display_document (render_tbl float_text t)) = POk d /\\ abs_tbl (doc_root d) = printed_entries (abs_tbl t)  (values before sub-tables in every table, empty arrays of tables dropped: all a TOML document can say)",
+    "C06_built_value / C06_built_document: everything the construction terms (Value::from, Array::new+push / collect, InlineTable::new+insert / collect, Table::new+insert, ArrayOfTables::new+push, DocumentMut::new / from(Table)) evaluate to is inside Built",
+    "C06_value_constructed / C06_document_constructed: the two round trips stated on the construction terms themselves",
+    "C06_text: the printer's text of a constructed value is the structural text `txt` between its decor (no fuel; printing is a function of the tree: C06_pure is by construction in Gallina, and checked on the implementation by printing twice and printing a clone)",
+    "Examples: nesting 79 is read back and 80 refused (values and header paths); a value taken out of an array keeps its blank and does not parse alone; nasty document with value after sub-table, repeated key, empty array of tables",
 ]
